@@ -212,3 +212,50 @@ Definition module_names_dotfree (root : module) : bool :=
 (* the user's module with the standard library injected, as the compiler sees it *)
 Definition with_std (std : module) (m : module) : module :=
   match m with Module subs funs imps => Module (subs ++ [(w_std, std)]) funs imps end.
+
+(* ---- the static calls and function references of a card, in the order in which they are compiled:
+   a Call card is a function reference followed by a call; a DynamicCall compiles its arguments, then
+   the function expression, then the call ---- *)
+Inductive citem := CPtr (name : str) | CCallI.
+
+Fixpoint card_items (c : card) : list citem :=
+  match c with
+  | CCall name args => flat_map card_items args ++ [CPtr name; CCallI]
+  | CFunction name => [CPtr name]
+  | CDynamicCall f args => flat_map card_items args ++ card_items f ++ [CCallI]
+  | CBin _ a b => card_items a ++ card_items b
+  | CUn _ a => card_items a
+  | CTri _ a b c => card_items a ++ card_items b ++ card_items c
+  | CCallNative _ args => flat_map card_items args
+  | CSetGlobalVar _ v => card_items v
+  | CSetVar _ v => card_items v
+  | CRepeat _ n body => card_items n ++ card_items body
+  | CForEach _ _ _ it body => card_items it ++ card_items body
+  | CComposite _ cards => flat_map card_items cards
+  | CArray cards => flat_map card_items cards
+  | CClosure _ cards => flat_map card_items cards
+  | _ => []
+  end.
+
+(* the call sites of a function of the tree, each with its surroundings *)
+Definition site_items (st : fsite) : list (fsite * citem) :=
+  map (fun it => (st, it)) (flat_map card_items (f_cards (fs_fn st))).
+
+(* what the specification designates for a reference to [name] made from site [st]: the position of
+   the target in the compiler's numbering and the number of its parameters *)
+Definition site_target (root : module) (st : fsite) (name : str) : option (nat * nat) :=
+  match spec_resolve root (fs_path st) (fs_imports st) name with
+  | SFound f =>
+      match fn_position root (fst f) (snd f) 0, function_at root f with
+      | Some pos, Some fn => Some (pos, length (f_args fn))
+      | _, _ => None
+      end
+  | _ => None
+  end.
+
+(* position of `main` among the functions of the root: the compiler moves it to the front *)
+Fixpoint main_index (funs : list (str * function)) (i : nat) : option nat :=
+  match funs with
+  | [] => None
+  | (n, _) :: r => if seq_eqb n w_main then Some i else main_index r (S i)
+  end.
